@@ -60,18 +60,27 @@ Proof.
   unfold V_to_ev, V_ev. rewrite V_to_path_V_path, !V_to_tree_V_tree, V_to_state_V_state. reflexivity.
 Qed.
 
+Definition src_obs (c : c05_case) : ostate :=
+  if k_alone c then {| o_tree := k_a c; o_ranks := []; o_owners := true |}
+  else ostate_of (init (k_n c) (k_da c) (k_a c)).
+
+Lemma V_to_state_V_src c : V_to_state (V_src c) = Some (src_obs c).
+Proof.
+  unfold V_src, src_obs. destruct (k_alone c); [|apply V_to_state_V_state].
+  unfold V_to_state. rewrite V_to_tree_V_tree. reflexivity.
+Qed.
+
 Definition model_obs (c : c05_case) : oobs :=
-  let sa := init (k_n c) (k_da c) (k_a c) in
   let sz := init (k_n c) (k_dz c) (k_z c) in
   let r := populate (k_sp c) (bd_of (k_body c)) (k_a c) sz in
-  {| oo_a0 := ostate_of sa; oo_z0 := ostate_of sz; oo_evs := map (oev_of (k_sp c) sz) (snd r);
-     oo_z1 := ostate_of (fst r); oo_a1 := ostate_of sa; oo_a_same := true |}.
+  {| oo_a0 := src_obs c; oo_z0 := ostate_of sz; oo_evs := map (oev_of (k_sp c) sz) (snd r);
+     oo_z1 := ostate_of (fst r); oo_a1 := src_obs c; oo_a_same := true |}.
 
 Lemma V_to_obs_model c : V_to_obs (c05_model c) = Some (model_obs c).
 Proof.
   unfold c05_model, model_obs.
   destruct (populate (k_sp c) (bd_of (k_body c)) (k_a c) (init (k_n c) (k_dz c) (k_z c))) as [sz' evs].
-  cbn [fst snd]. unfold V_to_obs. rewrite !V_to_state_V_state. rewrite map_map.
+  cbn [fst snd]. unfold V_to_obs. rewrite !V_to_state_V_src, !V_to_state_V_state. rewrite map_map.
   rewrite (all_some_map_some _ (oev_of (k_sp c) (init (k_n c) (k_dz c) (k_z c))))
     by (intros e; apply V_to_ev_V_ev).
   rewrite V_eqb_refl. reflexivity.
@@ -82,6 +91,9 @@ Proof.
   unfold init. pose proof (load_erase_len t O O (repeat [] n)) as H.
   destruct (load 0 t 0 (repeat [] n)) as [[r nx] rk]. cbn [fst snd s_root] in *. tauto.
 Qed.
+
+Lemma src_obs_tree c : o_tree (src_obs c) = k_a c.
+Proof. unfold src_obs. destruct (k_alone c); [reflexivity|]. apply erase_init. Qed.
 
 Lemma s_d_init n d t : s_d (init n d t) = d.
 Proof. unfold init. destruct (load 0 t 0 (repeat [] n)) as [[r nx] rk]. reflexivity. Qed.
@@ -134,7 +146,7 @@ Theorem c05_model_core c :
 Proof.
   intros Hwf. split; [apply V_to_obs_model|].
   unfold c05_wf in Hwf. repeat (apply andb_true_iff in Hwf; destruct Hwf as [Hwf ?]).
-  rename Hwf into Hn. rename H3 into Hz. rename H2 into Ha.
+  rename Hwf into Hn. rename H4 into Hz. rename H3 into Ha.
   destruct (init_ok (k_n c) (k_dz c) (k_z c) Hn Hz) as [Hwz Hnz].
   pose proof (populate_spec (k_sp c) (bd_of (k_body c)) (rb_of (k_body c)) (k_a c) _ (rb_of_ok _) Hwz) as P.
   rewrite Hnz, s_d_init in P. specialize (P Ha). cbv zeta in P.
@@ -150,7 +162,7 @@ Proof.
                   (fun es => es) (root_es sz) (s_next sz) (s_ranks sz)) as [[[es' nx] rk] evs].
     cbn [fst]. destruct Hwz as (id & ow & es0 & Hr & _ & _).
     unfold root_es, with_root. rewrite Hr. reflexivity. }
-  rewrite !erase_init, !tree_eqb_refl. cbn [andb].
+  rewrite !src_obs_tree, !tree_eqb_refl. cbn [andb].
   rewrite Hz0 in *. cbn [sub_of] in *.
   apply andb_true_iff. split; [apply andb_true_iff; split|].
   - rewrite (root_node sz Hwz), tree_eqb_refl. cbn [andb]. rewrite map_map.
@@ -293,7 +305,7 @@ Proof.
   cbn [holds model c05_checker] in *. unfold c05_holds. rewrite Hwf. cbn [andb].
   rewrite Hdec. unfold c05_holds_obs. rewrite Hcore. cbn [andb].
   unfold c05_wf in Hwf. repeat (apply andb_true_iff in Hwf; destruct Hwf as [Hwf ?]).
-  rename Hwf into Hn. rename H3 into Hz. rename H2 into Ha.
+  rename Hwf into Hn. rename H4 into Hz. rename H3 into Ha.
   destruct (init_ok (k_n c) (k_dz c) (k_z c) Hn Hz) as [Hwz Hnz].
   pose proof (init_mirror_gen (k_n c) (k_dz c) (k_z c)) as HMz.
   pose proof (populate_through (k_sp c) (bd_of (k_body c)) (k_a c) _ Hwz HMz) as P.
